@@ -207,6 +207,11 @@ def relational(fact):
             pos = truth if name in ("is_some", "is_ok", "is_empty") else not truth
             base = {"is_none": "is_some", "is_err": "is_ok"}.get(name, name)
             out.append(("Pred" if pos else "NotPred", base, args[0]))
+            g = values.strip_payload(args[0])
+            if base == "is_some" and isinstance(g, tuple) and g and g[0] == "call" and values.strip_generics(g[1]).endswith("slice::get") and len(g[2]) == 2 \
+                    and not (isinstance(g[2][1], tuple) and g[2][1] and g[2][1][0] == "agg"):
+                # `v.get(i).is_some()` is `i < v.len()`, `v.get(i).is_none()` is `v.len() <= i`
+                out.append(("Lt", g[2][1], ("len", g[2][0])) if pos else ("Le", ("len", g[2][0]), g[2][1]))
             return out
     out.append(("True" if truth else "False", t, None))
     return out
